@@ -184,7 +184,21 @@ func (w walkFeatures) String() string {
 	return fmt.Sprintf("{padding-skip:%v reserved-id-stop:%v id=byte>>4:%v len=(byte&15)+1:%v}", w.paddingSkip, w.reservedStop, w.idShift, w.lenPlusOne)
 }
 
+// walkerFeatures of fn and of the new helpers it was split into (each analysed as a function of its own
+// buffer parameter; a feature found in any of them counts).
 func walkerFeatures(c *Ctx, fn *ssa.Function) walkFeatures {
+	f := walkerFeatures1(c, fn)
+	for _, h := range newHelpers(fn) {
+		g := walkerFeatures1(c, h)
+		f.paddingSkip = f.paddingSkip || g.paddingSkip
+		f.reservedStop = f.reservedStop || g.reservedStop
+		f.idShift = f.idShift || g.idShift
+		f.lenPlusOne = f.lenPlusOne || g.lenPlusOne
+	}
+	return f
+}
+
+func walkerFeatures1(c *Ctx, fn *ssa.Function) walkFeatures {
 	m := bits.Run(c.Prog, fn)
 	var f walkFeatures
 	f.idShift = hasValue(m, "0x4 $b[@c].7-4")
@@ -270,8 +284,13 @@ func c03(c *Ctx) {
 	hu := p.Func("rtp.(*Header).Unmarshal")
 	ref := walkerFeatures(c, hu)
 	n++
-	r.Add("SIBLING.walk", core.FuncName(hu), "one-byte walk: padding skip, reserved-id stop, id = byte>>4, len = (byte&15)+1", p.Position(hu.Pos()),
-		ref.paddingSkip && ref.reservedStop && ref.idShift && ref.lenPlusOne, ref.String())
+	refOK := ref.paddingSkip && ref.reservedStop && ref.idShift && ref.lenPlusOne
+	addOrUndecided(c, "SIBLING.walk", core.FuncName(hu), "one-byte walk: padding skip, reserved-id stop, id = byte>>4, len = (byte&15)+1", p.Position(hu.Pos()),
+		refOK, ref.String(), hu)
+	if !refOK && len(newHelpers(hu)) > 0 {
+		// the walk of the restructured Header.Unmarshal is not decided: the views are compared with the walk RFC 8285 4.2 describes
+		ref = walkFeatures{paddingSkip: true, reservedStop: true, idShift: true, lenPlusOne: true}
+	}
 	for _, mn := range []string{"GetIDs", "Get", "Set", "Del"} {
 		fn := p.Func("rtp.(*OneByteHeaderExtension)." + mn)
 		if fn == nil {
@@ -379,6 +398,18 @@ func headerContracts(c *Ctx, withReservedStop bool) *bounds.Hooks {
 		}
 	}
 	if extEnd == nil {
+		if hs := newHelpers(hu); len(hs) > 0 {
+			// the element loop was moved into a helper: the block end is a value of the helper's frame and the
+			// ext-exact / ext-containment contracts, which are stated at Header.Unmarshal's own returns, are not decided
+			c.R.Infof("CTR ext-exact/ext-containment: not decided — element loop `n < extensionEnd` not found in Header.Unmarshal, which was restructured around new helper(s) (%s)", core.FuncName(hs[0]))
+			return &bounds.Hooks{AtReturn: func(h *bounds.Helper, fn *ssa.Function, ret *ssa.Return, d *bounds.Disjunct) {
+				if fn != hu || len(ret.Results) != 2 || !d.ErrIsNil(ret.Results[1]) {
+					return
+				}
+				n := d.Int(ret.Results[0])
+				h.Oblige("success: 0 <= n <= len(buf)", d.Entails(lin.GE(n, lin.Const(0)), lin.LE(n, d.Len(hu.Params[1]))), "header length outside the input")
+			}}
+		}
 		c.R.Fatalf("Header.Unmarshal: element loop `n < extensionEnd` not found")
 		return nil
 	}
